@@ -139,25 +139,59 @@ func (vc *VC) emit(o *Obl, dir string, idx int) (string, int, error) {
 		// positive universally quantified conjuncts of the goal are skolemised by hand, and every quantified spec formula in the
 		// context is instantiated at the skolem constants (and their neighbours): proofs of array invariants then need no
 		// quantifier instantiation by the solver at all.
-		goal, sks := vc.skolemizeGoal(o.Goal)
+		goal, sks := vc.skolemizeGoal(o.Goal, o.Cands)
 		for _, sk := range sks {
 			fmt.Fprintf(&b, "(declare-const %s Int)\n", sk)
 		}
 		if len(sks) > 0 {
 			ctx := b.String()
-			n := 0
+			var terms []string
+			for _, sk := range sks {
+				terms = append(terms, sk, "(- "+sk+" 1)", "(+ "+sk+" 1)")
+			}
+			type item struct {
+				q     quantRec
+				depth int
+			}
+			var work []item
 			for _, q := range vc.quants {
-				if !strings.Contains(ctx, q.Text) && !strings.Contains(goal, q.Text) {
-					continue
-				}
-				for _, sk := range sks {
-					for _, t := range []string{sk, "(- " + sk + " 1)", "(+ " + sk + " 1)"} {
-						fmt.Fprintf(&b, "(assert (=> %s %s))\n", q.Text, substSym(q.Inner, q.BV, t))
-						n++
+				nested := false
+				for _, o := range vc.quants {
+					if o != q && strings.Contains(o.Inner, q.Text) {
+						nested = true
+						break
 					}
 				}
-				if n > 60 {
-					break
+				if nested {
+					continue // reached through its enclosing quantifier
+				}
+				if strings.Contains(ctx, q.Text) || strings.Contains(goal, q.Text) {
+					work = append(work, item{*q, 0})
+				}
+			}
+			n := 0
+			seen := map[string]bool{}
+			for len(work) > 0 && n < 240 {
+				it := work[0]
+				work = work[1:]
+				for _, t := range terms {
+					inst := substSym(it.q.Inner, it.q.BV, t)
+					key := it.q.Text + "@" + t
+					if seen[key] {
+						continue
+					}
+					seen[key] = true
+					fmt.Fprintf(&b, "(assert (=> %s %s))\n", it.q.Text, inst)
+					n++
+					if it.depth >= 1 {
+						continue
+					}
+					// quantifiers nested inside this one become instantiable once the outer variable is fixed
+					for _, q2 := range vc.quants {
+						if q2.BV != it.q.BV && strings.Contains(it.q.Inner, q2.Text) {
+							work = append(work, item{quantRec{BV: q2.BV, Text: substSym(q2.Text, it.q.BV, t), Inner: substSym(q2.Inner, it.q.BV, t)}, it.depth + 1})
+						}
+					}
 				}
 			}
 		}
@@ -236,13 +270,13 @@ func race(file string, timeout time.Duration, expect string) SolveResult {
 			cancel()
 			return SolveResult{Status: r.status, Solver: r.solver, Secs: r.secs, Output: r.out, File: file}
 		}
-		if last.status == "" || r.status == "unknown" {
+		if last.status == "" || r.status == "unknown" || (last.status == "error" && r.status != "error") {
 			last = r
 		}
 	}
 	st := last.status
 	if st == "error" {
-		st = "unknown"
+		st = "solver-error"
 	}
 	return SolveResult{Status: st, Solver: "all", Secs: last.secs, Output: strings.Join(outs, "\n"), File: file}
 }
@@ -255,20 +289,40 @@ func firstLines(s string, n int) string {
 	return strings.Join(ls, "\n")
 }
 
-// skolemizeGoal replaces universally quantified spec formulas in positive position of the goal by instances at fresh constants.
-func (vc *VC) skolemizeGoal(goal string) (string, []string) {
+// skolemizeGoal replaces universally quantified spec formulas in positive position of the goal by instances at fresh
+// constants (nested ones too), and gives positive existential formulas the candidate witnesses of the obligation.
+func (vc *VC) skolemizeGoal(goal string, cands []string) (string, []string) {
 	var sks []string
-	var walk func(t string, pos bool) string
-	walk = func(t string, pos bool) string {
+	type sub struct{ sym, repl string }
+	apply := func(t string, subs []sub) string {
+		for _, s := range subs {
+			t = substSym(t, s.sym, s.repl)
+		}
+		return t
+	}
+	var walk func(t string, pos bool, subs []sub) string
+	walk = func(t string, pos bool, subs []sub) string {
 		if !strings.HasPrefix(t, "(") {
 			return t
 		}
-		if pos {
+		if pos && strings.HasPrefix(t, "(forall ") {
 			for _, q := range vc.quants {
-				if t == q.Text {
+				if t == apply(q.Text, subs) {
 					sk := fmt.Sprintf("sk!%d", len(sks))
 					sks = append(sks, sk)
-					return walk(substSym(q.Inner, q.BV, sk), true)
+					ns := append(append([]sub{}, subs...), sub{q.BV, sk})
+					return walk(apply(q.Inner, ns), true, ns)
+				}
+			}
+		}
+		if pos && strings.HasPrefix(t, "(exists ") && len(cands) > 0 {
+			for _, q := range vc.exQuants {
+				if t == apply(q.Text, subs) {
+					alts := []string{t}
+					for _, c := range cands {
+						alts = append(alts, substSym(apply(q.Inner, subs), q.BV, c))
+					}
+					return "(or " + strings.Join(alts, " ") + ")"
 				}
 			}
 		}
@@ -279,21 +333,21 @@ func (vc *VC) skolemizeGoal(goal string) (string, []string) {
 		switch parts[0] {
 		case "and", "or":
 			for i := 1; i < len(parts); i++ {
-				parts[i] = walk(parts[i], pos)
+				parts[i] = walk(parts[i], pos, subs)
 			}
 		case "=>":
 			for i := 1; i < len(parts)-1; i++ {
-				parts[i] = walk(parts[i], !pos)
+				parts[i] = walk(parts[i], !pos, subs)
 			}
-			parts[len(parts)-1] = walk(parts[len(parts)-1], pos)
+			parts[len(parts)-1] = walk(parts[len(parts)-1], pos, subs)
 		case "not":
-			parts[1] = walk(parts[1], !pos)
+			parts[1] = walk(parts[1], !pos, subs)
 		default:
 			return t
 		}
 		return "(" + strings.Join(parts, " ") + ")"
 	}
-	g := walk(goal, true)
+	g := walk(goal, true, nil)
 	return g, sks
 }
 
